@@ -1,3 +1,4 @@
+mod bits;
 mod catalogue;
 mod codec;
 mod lowlevel;
@@ -5,6 +6,7 @@ mod model;
 mod out;
 mod rng;
 
+use bits::{run_arb, run_bitbytes, run_bitops, run_serde};
 use codec::Ctx;
 use std::collections::HashSet;
 
@@ -47,7 +49,9 @@ fn run_type<T: model::Model>(ctx: &mut Ctx) {
 }
 
 fn main() {
-    std::panic::set_hook(Box::new(|_| {}));
+    if std::env::var("VERIF_PANIC_VERBOSE").is_err() {
+        std::panic::set_hook(Box::new(|_| {}));
+    }
     let args: Vec<String> = std::env::args().collect();
     let mut groups: HashSet<String> = HashSet::new();
     let mut thorough = false;
@@ -129,6 +133,35 @@ fn main() {
     }
     if ctx.on("listvar") {
         lowlevel::run_listvar(&mut ctx);
+    }
+    if ctx.on("bitops") {
+        for_each_bitfield!(run_bitops, &mut ctx);
+        bits::run_bitops::<ssz::BitVectorDynamic>(&mut ctx);
+    }
+    if ctx.on("bitbytes") {
+        for_each_bitfield!(run_bitbytes, &mut ctx);
+        bits::run_bitbytes::<ssz::BitVectorDynamic>(&mut ctx);
+        bits::run_withlen(&mut ctx);
+        {
+            use typenum::*;
+            bits::run_resize::<U8, U8>(&mut ctx);
+            bits::run_resize::<U8, U9>(&mut ctx);
+            bits::run_resize::<U9, U8>(&mut ctx);
+            bits::run_resize::<U0, U1>(&mut ctx);
+            bits::run_resize::<U1, U0>(&mut ctx);
+            bits::run_resize::<U7, U64>(&mut ctx);
+            bits::run_resize::<U16, U17>(&mut ctx);
+            bits::run_resize::<U17, U16>(&mut ctx);
+            bits::run_resize::<U64, U1024>(&mut ctx);
+            bits::run_resize::<U33, U33>(&mut ctx);
+        }
+    }
+    if ctx.on("serde") {
+        for_each_bitfield!(run_serde, &mut ctx);
+        bits::run_serde::<ssz::BitVectorDynamic>(&mut ctx);
+    }
+    if ctx.on("arb") {
+        for_each_bitfield!(run_arb, &mut ctx);
     }
     if ctx.on("meta") || ctx.on("enc") || ctx.on("entry") || ctx.on("dec") {
         for_each_type!(run_type, &mut ctx);
